@@ -60,6 +60,14 @@ fn check_value_semantics(rep: &mut Report, a: &[u32], b: &[u32], seed: u64) {
     let (sa, sa2, sb) = (SmtString::from(a), SmtString::from(a.to_vec()), SmtString::from(b));
     let case = a.iter().map(|c| format!("{:x}", c)).collect::<Vec<_>>().join(" ");
     rep.inc("value_semantics_probes");
+    // read-only observers on one of the two equal strings first: they must not change ==, hash or clone
+    let _ = (sa.is_unicode(), sa.is_good(), sa.len(), sa.is_empty(), sa.iter().count());
+    if sa.len() <= 64 {
+        let _ = sa.to_string();
+    }
+    if sa.is_unicode() && sa.len() <= 64 {
+        let _ = sa.to_unicode_string();
+    }
     let cl = sa.clone();
     let bad = sa != sa2
         || hash_of(&sa) != hash_of(&sa2)
